@@ -2,6 +2,7 @@ package props
 
 import (
 	"fmt"
+	"strings"
 	"time"
 
 	"verif/harness/bfs"
@@ -83,6 +84,14 @@ func c15Probe(maxLen int) func(w *mintops.W) {
 		for _, q := range mintops.Seqs(alpha, maxLen) {
 			w.QueryStates(q, false)
 			w.QueryStates(q, true)
+		}
+		// the same points spelled in upper-case hex
+		for i := 0; i < cap2(len(w.Proofs), 3); i++ {
+			u := strings.ToUpper(w.Proofs[i].Y)
+			for _, q := range [][]string{{u}, {w.Proofs[i].Y, u}} {
+				w.QueryStates(q, false)
+				w.QueryStates(q, true)
+			}
 		}
 		// restore family: first two signed, first two never signed, unknown, malformed
 		var bs []string
